@@ -212,7 +212,7 @@ def fresh_results(fam, vec):
 
 
 LONG_RUN = {"quick": 300, "thorough": 1500}
-INTERPOSED = {"quick": 560, "thorough": 2400}
+INTERPOSED = {"quick": 1100, "thorough": 4400}
 
 
 def long_runs(fam, vec, fresh, n):
@@ -223,7 +223,7 @@ def long_runs(fam, vec, fresh, n):
     calls = 0
     for i, (name, fn) in enumerate(ops):
         o, twin = cls(vec), cls(vec)
-        for k in range(n):
+        for k in range(n if name != "other_entry_points_used_in_between" else max(3, n // 30)):
             calls += 1
             try:
                 r = opseq.canon(fn(o, twin))
@@ -235,6 +235,8 @@ def long_runs(fam, vec, fresh, n):
     o, twin = cls(vec), cls(vec)
     for k in range(n):
         for i, (name, fn) in enumerate(ops):
+            if name == "other_entry_points_used_in_between" and k % 30:
+                continue
             calls += 1
             try:
                 r = opseq.canon(fn(o, twin))
@@ -246,20 +248,21 @@ def long_runs(fam, vec, fresh, n):
     return calls, None, None
 
 
-def interposed(fam, vec, fresh, m):
-    """(iv) other objects in between: m other distinct objects of all versions go through every
-    operation (whatever the fresh-object observation left in a bounded shared cache is gone),
-    then an equal object spelled differently, then the object itself; then the m others again and
-    the object once more - all its results must equal the fresh-object results."""
+def interposed(fam, vecs, m):
+    """(iv) other objects in between, for a group of seed vectors of one family in one process:
+    fresh-object observations of every seed; then m other distinct objects of all versions go
+    through every operation (whatever the observations left in a bounded shared cache is gone);
+    then, per seed, an equal object spelled differently and after it the seed's object; then the
+    m others again and every seed's object once more. All results must equal the fresh ones.
+    Returns (calls, failing vector or None, why or None)."""
+    from .. import spaces
     cls = observe.cls_of(fam)
-    ops = make_ops(fam, vec)
     calls = [0]
     per = max(1, m // 8)
     others = []
-    from .. import spaces
     for f2 in [fam] + [f for f in T.FAMILIES if f != fam]:
         k = m - 3 * per if f2 == fam else per
-        others += [(f2, v) for v in spaces.many_vectors(f2, k) if v != vec]
+        others += [(f2, v) for v in spaces.many_vectors(f2, k) if v not in vecs]
 
     def crowd():
         for f2, v in others:
@@ -273,37 +276,63 @@ def interposed(fam, vec, fresh, m):
                     T.CLASSNAME[f2], v, type(e).__name__, e)
         return None
 
-    o, twin = cls(vec), cls(vec)
+    try:
+        fresh = dict((v, fresh_results(fam, v)) for v in vecs)
+        objs = dict((v, (cls(v), cls(v))) for v in vecs)
+    except Exception as e:  # noqa
+        return calls[0], vecs[0], "an accessor raised on a fresh object: %s: %s" % (type(e).__name__, e)
 
-    def all_ops(when):
-        for i, (name, fn) in enumerate(ops):
+    def all_ops(v, when):
+        o, twin = objs[v]
+        for i, (name, fn) in enumerate(make_ops(fam, v)):
             calls[0] += 1
             try:
                 r = opseq.canon(fn(o, twin))
             except Exception as e:  # noqa
                 return "%s raised %s: %s %s" % (name, type(e).__name__, e, when)
-            if r != fresh[i]:
+            if r != fresh[v][i]:
                 return "%s returns %s %s, but %s on a fresh object" % (
-                    name, json.dumps(r)[:160], when, json.dumps(fresh[i])[:160])
+                    name, json.dumps(r)[:160], when, json.dumps(fresh[v][i])[:160])
         return None
 
     why = crowd()
     if why:
-        return calls[0], why
-    other_vec = respelled(fam, vec)
-    try:
-        other = cls(other_vec)
-        for name, fn in make_ops(fam, other_vec):
-            fn(other, cls(other_vec))
-            calls[0] += 1
-    except Exception as e:  # noqa
-        return calls[0], "the equal object spelled %r cannot be built and read: %s: %s" % (other_vec, type(e).__name__, e)
-    why = all_ops("after %d other objects and then an equal object spelled %r went through the same operations" % (
-        len(others), other_vec))
+        return calls[0], vecs[0], why
+    for v in vecs:
+        other_vec = respelled(fam, v)
+        try:
+            other = cls(other_vec)
+            for name, fn in make_ops(fam, other_vec):
+                fn(other, cls(other_vec))
+                calls[0] += 1
+        except Exception as e:  # noqa
+            return calls[0], v, "the equal object spelled %r cannot be built and read: %s: %s" % (
+                other_vec, type(e).__name__, e)
+        why = all_ops(v, "after %d other objects and then an equal object spelled %r went through the same operations" % (
+            len(others), other_vec))
+        if why:
+            return calls[0], v, why
+    why = crowd()
     if why:
-        return calls[0], why
-    why = crowd() or all_ops("after %d other objects went through the same operations" % len(others))
-    return calls[0], why
+        return calls[0], vecs[0], why
+    for v in vecs:
+        why = all_ops(v, "after %d other objects went through the same operations" % len(others))
+        if why:
+            return calls[0], v, why
+    return calls[0], None, None
+
+
+def _crowd_task(t):
+    fam, vecs = t
+    acc = sweep.new_acc()
+    tier = core.CURRENT_TIER or "quick"
+    calls, v, why = interposed(fam, list(vecs), INTERPOSED.get(tier, 1100))
+    acc["calls"] += calls
+    acc["extra"]["interposed"] = calls
+    if why:
+        sweep.bad(acc, {"what": "%s(%r): %s" % (T.CLASSNAME[fam], v, why), "kind": "interposed", "family": fam,
+                        "input": v, "group": list(vecs), "seq": [], "signature": {"kind": "interposed"}})
+    return acc
 
 
 def _task(t):
@@ -346,13 +375,6 @@ def _task(t):
         if why:
             sweep.bad(acc, {"what": "%s(%r): %s" % (T.CLASSNAME[fam], vec, why), "kind": "long", "family": fam,
                             "input": vec, "seq": seq or [], "signature": {"kind": "long"}})
-    if not acc["bad"]:
-        calls, why = interposed(fam, vec, fresh, INTERPOSED.get(tier, 560))
-        acc["calls"] += calls
-        acc["extra"]["interposed"] = calls
-        if why:
-            sweep.bad(acc, {"what": "%s(%r): %s" % (T.CLASSNAME[fam], vec, why), "kind": "interposed", "family": fam,
-                            "input": vec, "seq": [], "signature": {"kind": "interposed"}})
     if not acc["samples"]:
         acc["samples"].append({"vector": vec, "snapshot_bfs": {"states": nstates, "transitions": ntrans},
                                "ops": [n for n, _ in make_ops(fam, vec)]})
@@ -364,6 +386,11 @@ def run(ctx, res):
     deep = set(range(0, len(sd), 1 if ctx.thorough else 3))
     tasks = [(fam, vec, 3 if i in deep else 2) for i, (fam, vec) in enumerate(sd)]
     accs = core.task_map(_task, ctx.rot(tasks))
+    groups = []
+    for fam in T.FAMILIES:
+        vs = [v for f, v in sd if f == fam]
+        groups += [(fam, vs[i:i + 6]) for i in range(0, len(vs), 6)]
+    accs += core.task_map(_crowd_task, groups)
     tot = sweep.merge(accs)
     bfs = [a["extra"].get("bfs", (0, 0, False)) for a in accs]
     cov = res.coverage
@@ -376,7 +403,7 @@ def run(ctx, res):
     cov["long_run_calls"] = sum(a["extra"].get("long", 0) for a in accs)
     cov["long_run_length"] = LONG_RUN.get(ctx.tier, 300)
     cov["interposed_calls"] = sum(a["extra"].get("interposed", 0) for a in accs)
-    cov["interposed_objects"] = INTERPOSED.get(ctx.tier, 560)
+    cov["interposed_objects"] = INTERPOSED.get(ctx.tier, 1100)
     cov["traces_validated_against_impl"] = tot["cmp"]
     cov["evaluations"] = tot["n"]
     cov["distinct_nontrivial"] = tot["nontrivial"]
@@ -416,7 +443,7 @@ def replay(case):
         return bool(why), why or "pure over %d calls" % calls
     if case["kind"] == "interposed":
         tier = case.get("tier") or "quick"
-        calls, why = interposed(fam, vec, fresh, INTERPOSED.get(tier, 560))
+        calls, v, why = interposed(fam, case.get("group") or [vec], INTERPOSED.get(tier, 1100))
         return bool(why), why or "pure over %d calls" % calls
     why = run_sequence(fam, vec, seq, fresh)
     return bool(why), why or "pure"
